@@ -4,8 +4,8 @@ package main
 
 import (
 	"go/ast"
-	"go/token"
 	"go/constant"
+	"go/token"
 	"go/types"
 	"sort"
 	"strings"
